@@ -14,6 +14,7 @@ var Registry = map[string]func(tier string){
 	"C05": C05,
 	"C06": C06,
 	"C07": C07,
+	"C08": C08,
 	"C10": C10,
 	"C12": C12,
 	"C13": C13,
